@@ -69,12 +69,12 @@ def templates(F, S, rng):
         else:
             add('transform.to_rfi', kind + ':list', lambda d=d: F.transform.to_rfi(d, [0, 1], [(4, 1), (0, 0)], [None, 2.0], [1024, 1024]))
         crv = [zoo.make_curve(1.0, 2.0), zoo.make_curve(1.1, 3.0)]
-        add('transform.to_mef', kind, lambda d=d, c0=c0, c1=c1, crv=crv: F.transform.to_mef(d, [c1], crv, [c0, c1]))
+        add('transform.to_mef', kind, lambda d=d, c0=c0, c1=c1, crv=crv: F.transform.to_mef(d, [c1], crv, [c1, c0]))
         add('transform.transform', kind, lambda d=d, c0=c0: F.transform.transform(d, [c0], lambda x: np.asarray(x) * 2.0))
         # gates
         add('gate.start_end', kind, lambda d=d: F.gate.start_end(d, 5, 5, True))
         add('gate.high_low', kind + ':default', lambda d=d: F.gate.high_low(d))
-        add('gate.high_low', kind + ':lists', lambda d=d, c0=c0, c1=c1: F.gate.high_low(d, [c0, c1], [900.0, 800.0], [1.0, 2.0], True))
+        add('gate.high_low', kind + ':lists', lambda d=d, c0=c0, c1=c1: F.gate.high_low(d, [c1, c0], [900.0, 800.0], [1.0, 2.0], True))
         add('gate.ellipse', kind, lambda d=d, c0=c0, c1=c1: F.gate.ellipse(d, [c0, c1], [2.3, 2.4], 0.5, 0.4, 0.3, True, True))
         for scale in (('linear', 'linear'), ('logicle', 'log'), ('log', 'logicle')):
             if kind == 'float' and 'log' in scale:
@@ -82,12 +82,12 @@ def templates(F, S, rng):
             add('gate.density2d', kind + ':bins-list-int:' + '/'.join(scale),
                 lambda d=d, c0=c0, c1=c1, scale=scale: F.gate.density2d(d, [c0, c1], [16, 20], 0.5, scale[0], scale[1], 2.0, None, True))
             add('gate.density2d', kind + ':bins-int:' + '/'.join(scale),
-                lambda d=d, c0=c0, c1=c1, scale=scale: F.gate.density2d(d, [c0, c1], 16, 0.5, scale[0], scale[1], 2.0))
+                lambda d=d, c0=c0, c1=c1, scale=scale: F.gate.density2d(d, [c1, c0], 16, 0.5, scale[0], scale[1], 2.0))
         add('gate.density2d', kind + ':bins-arrays',
             lambda d=d, c0=c0, c1=c1: F.gate.density2d(d, [c0, c1], [np.linspace(0, 1100, 12), np.linspace(0, 1100, 9)], 0.7, 'linear', 'linear', 1.0))
         # stats
         for st in monitors.STATS:
-            add('stats.' + st, kind + ':list', lambda d=d, st=st, c0=c0, c1=c1: getattr(F.stats, st)(np.abs(d) + 1 if False else d, [c0, c1]))
+            add('stats.' + st, kind + ':list', lambda d=d, st=st, c0=c0, c1=c1: getattr(F.stats, st)(d, [c1, c0]))
             add('stats.' + st, kind + ':none', lambda d=d, st=st: getattr(F.stats, st)(d))
         # mef helpers
         for scale in ('linear', 'log', 'logicle'):
